@@ -241,7 +241,7 @@ func BMCTest(t *testing.T, h func()) (fails []string, applicable bool, panicked 
 			// more) make the bubble end with a "deadlock" panic: not a finding by itself
 			defer func() {
 				if r := recover(); r != nil {
-					if s, ok := r.(string); !ok || !strings.Contains(s, "deadlock") {
+					if !strings.Contains(fmt.Sprint(r), "deadlock") {
 						panicked = r
 					}
 				}
